@@ -833,6 +833,9 @@ class Crystal(object):
             # reconstruct `t` as a rational vector; if fail, kick out
             T = np.around(M*t).astype(int)
             if not self.__isclose__(t, T/M): continue
+            # the reduction below divides by the smallest non-zero component of T, which has to divide M
+            # (otherwise sites merge unevenly); another translation in the same group always qualifies
+            if M % min(abs(v) for v in T if v != 0) != 0: continue
             t = T/M
             trans = True
             for atomlist, spinlist in zip(self.basis, spins):
